@@ -131,7 +131,14 @@ v("C17-cwd-root", "C17", "fire", "context.py", "            if maybe_config_path
 # ---- C18
 v("C18-name-by-id", "C18", "fire", "execution/ops/combine_outputs.py", "copy_into = self._output_path / dep_id.name", "copy_into = self._output_path / str(dep_id)", "CB1")
 v("C18-unlink-any", "C18", "fire", "execution/ops/combine_outputs.py", "                if copy_into.is_symlink():\n                    copy_into.unlink()\n                else:\n                    # Unexpected - it should be a symlink.\n                    raise CombineOutputFileConflict(output_file=str(copy_into))", "                copy_into.unlink()", "CB1")
+v("C15-lineno-arith", "C15", "fire", "parsing/task_loader.py", "                file_path=self._to_project_path(cond_file_path),\n                line_number=ex.lineno,\n            )\n            raise syntax_err from ex",
+  "                file_path=self._to_project_path(cond_file_path),\n                line_number=ex.lineno + 0,\n            )\n            raise syntax_err from ex", "EXC3")
+v("C15-twin-lineno-guarded", "C15", "silent", "parsing/task_loader.py", "                file_path=self._to_project_path(cond_file_path),\n                line_number=ex.lineno,\n            )\n            raise syntax_err from ex",
+  "                file_path=self._to_project_path(cond_file_path),\n                line_number=(ex.lineno + 0 if ex.lineno is not None else None),\n            )\n            raise syntax_err from ex")
 # ---- C19
+v("C19-seen-set-param-default", "C19", "fire", "task_types/stdlib/run_experiment_group.py", "        seen_experiment_names = set()\n", "        seen_experiment_names = run_experiment_group.__dict__.setdefault(\"_seen\", set())\n", "GRP4")
+v("C19-seen-set-in-loop", "C19", "fire", "task_types/stdlib/run_experiment_group.py", "        seen_experiment_names = set()\n        for experiment in experiments:\n", "        for experiment in experiments:\n            seen_experiment_names = set()\n", "GRP4")
+v("C19-twin-seen-annotated", "C19", "silent", "task_types/stdlib/run_experiment_group.py", "        seen_experiment_names = set()\n", "        seen_experiment_names: set = set()\n")
 v("C19-args-options", "C19", "fire", "task_types/stdlib/run_experiment_group.py", "                args=experiment.args,", "                args=experiment.options,", "GRP1")
 v("C19-chain-or", "C19", "fire", "task_types/stdlib/run_experiment_group.py", "if chain_experiments and prev_experiment_identifier is not None:", "if chain_experiments or prev_experiment_identifier is not None:", "GRP1")
 # ---- C20
